@@ -324,10 +324,64 @@ def run(ctx):
                         else:
                             ctx.violation(f"C18/cell/{'raw' if raw_mode else 'derived'}/{name[:3]}", f"{name} row {r_}: cell {cv!r} (dtype {col.dtype}) != parsed {'raw ' if raw_mode else ''}value {w_!r}",
                                           {"name": name, "mode": "raw" if raw_mode else "derived", "apid": apid, "row": r_})
+    same_names_section(ctx, tmp)
     ctx.traces += 2
     ctx.evaluations += ncell
     ctx.extra["cells_compared"] = ncell
     ctx.sample({"value_layout_variables": [nm for _, fs in layouts for nm, _, _ in fs][:30], "packets_per_apid": npk, "files": 3}, limit=3)
+
+
+def same_names_section(ctx, tmp):
+    """Several definitions used in one process may well give the same names to different things: a dataset is a function of the
+    definition and the files it is built from, not of what was built before. Three definitions share every parameter and type name
+    (V, W of APID 20) but encode them differently; datasets are built in the order A, B, C, A, B, raw and derived."""
+    import numpy as np
+    from space_packet_parser import xarr
+    from harness.calib import rat as _rat
+    variants = {
+        "A": (uint(8), uint(16)),
+        "B": (xdoc.ptype_num("float", xdoc.numeric_enc("flt", 64)), xdoc.ptype_num("int", xdoc.numeric_enc("int", 8), {"default": poly([(_rat(7, 4), 0), (_rat(1, 2), 1)]), "context": []})),
+        "C": (uint(72), xdoc.ptype_num("float", xdoc.numeric_enc("flt", 32, fmt="mil1750a"))),
+    }
+    built = {}
+    for tag, (tv, tw) in variants.items():
+        d = xdoc.new_defn("ROOT")
+        for nm, w in HDR:
+            xdoc.add_param(d, nm, uint(w))
+        xdoc.add_param(d, "V", tv)
+        xdoc.add_param(d, "W", tw)
+        xdoc.add_container(d, "ROOT", [("p", nm) for nm, _ in HDR], abstract=True)
+        xdoc.add_container(d, "L20", [("p", "V"), ("p", "W")], base="ROOT", crit_list=[cmp("APID", "==", 20)])
+        nbytes = (tv["enc"]["w"] + tw["enc"]["w"]) // 8
+        pks = []
+        for k in range(6):
+            body = bytes([(0xFF, 0x00, 0x80, 0x7F, 0x01, 0x3C)[k]] * nbytes) if k < 5 else bytes(range(1, nbytes + 1))
+            pks.append(defs.mk_packet(body, apid=20, seq=k))
+        built[tag] = (xdoc.load(d), write_files(tmp, [pks], "same-" + tag))
+    for tag in ("A", "B", "C", "A", "B"):
+        dobj, paths = built[tag]
+        for raw_mode in (False, True):
+            with warnings.catch_warnings():
+                warnings.simplefilter("ignore")
+                with open(paths[0], "rb") as f:
+                    want = list(dobj.packet_generator(f, root_container_name="ROOT"))
+                try:
+                    ds = xarr.create_dataset(paths, dobj, use_raw_values=raw_mode, root_container_name="ROOT")
+                except Exception as e:  # noqa: BLE001
+                    ctx.violation("C18/same-names/raised", f"definition {tag} ({'raw' if raw_mode else 'derived'}): {type(e).__name__}: {e}"[:300], {"variant": tag})
+                    continue
+            ctx.traces += 1
+            ctx.count(("same-names", tag, raw_mode))
+            for nm in ("V", "W"):
+                col = ds[20][nm].values
+                for r_, pk in enumerate(want):
+                    w_ = pk[nm].raw_value if raw_mode else pk[nm]
+                    if not cell_equal(col[r_], w_):
+                        c = col[r_]
+                        ctx.violation("C18/same-names/cell", f"definition {tag} ({'raw' if raw_mode else 'derived'}) built after other definitions with the "
+                                      f"same names: {nm} row {r_} = {c.item() if isinstance(c, np.generic) else c!r} (dtype {col.dtype}), parsed {w_!r}",
+                                      {"variant": tag, "name": nm, "row": r_})
+                        break
 
 
 def replay(ctx, obj):
